@@ -1,3 +1,22 @@
 //! verification hook (cfg pendulum_project_ntpd_rs_verif only): re-exports of private daemon items
 pub use super::server::{ServerStats, ServerTask};
 pub use super::config::ServerConfig as DaemonServerConfig;
+
+// --- BEGIN wsD C27 (daemon key provider adapter)
+pub mod keyprov {
+    use std::sync::Arc;
+    /// `nts_key_provider::spawn` with an explicit configuration
+    pub async fn spawn(
+        key_storage_path: Option<String>,
+        stale_key_count: usize,
+        key_rotation_interval: usize,
+    ) -> tokio::sync::watch::Receiver<Arc<ntp_proto::KeySet>> {
+        super::super::nts_key_provider::spawn(super::super::config::KeysetConfig {
+            stale_key_count,
+            key_rotation_interval,
+            key_storage_path,
+        })
+        .await
+    }
+}
+// --- END wsD C27
